@@ -232,7 +232,11 @@ func structuralStage(props []string) (fails []*Case, calls int) {
 // hasEmptyComponent: the value is empty or blank, or one of its comma- or solidus-separated
 // components is: no CSS value space contains such a value.
 func hasEmptyComponent(v string) bool {
-	if strings.TrimSpace(v) == "" {
+	if strings.Trim(v, " \t\n\f\r") == "" {
+		return true
+	}
+	// a Unicode space at either end is no CSS white space: it is part of a (then unknown) word
+	if t := strings.TrimSpace(v); t != strings.Trim(v, " \t\n\f\r") {
 		return true
 	}
 	for _, sep := range []string{",", "/"} {
@@ -260,7 +264,8 @@ func emptyComponentStage(props []string) (fails []*Case, calls int) {
 			if seed == "" || hasEmptyComponent(seed) || !h(seed) {
 				continue
 			}
-			cands = append(cands, seed+",,"+seed, seed+",", ","+seed, seed+", ,"+seed, seed+"//"+seed, "/"+seed, seed+"/")
+			cands = append(cands, seed+",,"+seed, seed+",", ","+seed, seed+", ,"+seed, seed+"//"+seed, "/"+seed, seed+"/",
+				"/ "+seed, seed+" /", seed+" / / "+seed, seed+"/ /"+seed, seed+",/"+seed, "\u00a0"+seed, seed+"\u00a0", seed+"\u2003")
 			if n++; n >= 6 {
 				break
 			}
@@ -269,7 +274,7 @@ func emptyComponentStage(props []string) (fails []*Case, calls int) {
 			calls++
 			if hasEmptyComponent(v) && h(v) {
 				fails = append(fails, &Case{Prop: "C18", Kind: "empty-component", Strs: []BStr{BStr(prop), BStr(v)},
-					Clause: "C18: the default handler for " + q(prop) + " accepts " + q(v) + ", which is empty or has an empty component"})
+					Clause: "C18: the default handler for " + q(prop) + " accepts " + q(v) + ", which is empty, has an empty component, or starts or ends in a Unicode space that is no CSS white space"})
 				break
 			}
 		}
